@@ -8,7 +8,7 @@ function's return convention.  Which inputs *are* violations is documentation, n
 import os, sys
 from ..ir import Program, exit_line
 from ..lin import Lin
-from ..pathflags import Engine, BudgetExceeded
+from ..pathflags import Engine, BudgetExceeded, run_adaptive
 from ..flags import HFlags
 from .. import frontend, api, par
 
@@ -76,13 +76,13 @@ def describe(rv):
 def worker(prog, name):
     fn = prog.funcs[name]
     conv = convention(fn)
-    plugin = HFlags(noinline=[n for n in OPAQUE if n != name], opaque_convention=OPAQUE, assume_quiet=ASSUME_QUIET.get(name),
-                    track_msgs=(name not in COARSE))
-    eng = Engine(prog, fn, plugin, budget=BUDGET)
+    mk = lambda: HFlags(noinline=[n for n in OPAQUE if n != name], opaque_convention=OPAQUE, assume_quiet=ASSUME_QUIET.get(name),
+                        track_msgs=(name not in COARSE))
     try:
-        res = eng.run()
+        eng = run_adaptive(prog, fn, mk, budgets=(60000, BUDGET))
     except BudgetExceeded as e:
         return dict(budget=str(e))
+    res = eng.results
     finds = {}
     classes = set()
     for (rv, st, path) in res:
@@ -101,6 +101,8 @@ def worker(prog, name):
         if cnt >= 2:
             add("reported-twice", "the constraint handler is invoked more than once for one call")
             continue
+        if r is not None and not r.is_const() and all(a in eng.indirect_results for a in r.t):
+            continue        # the value comes straight from a caller-supplied callback (output function): reporting is that callee's business
         nested = isinstance(code, tuple)
         if conv == "errno":
             if r is None:
